@@ -17,6 +17,10 @@ REPO = os.environ.get('VERIF_REPO', '/repo')
 
 def main():
     sys.dont_write_bytecode = True
+    try:
+        sys.set_int_max_str_digits(0)
+    except Exception:
+        pass
     sys.path[:0] = [REPO, HERE]
     warnings.simplefilter('ignore')
     import io
@@ -38,7 +42,7 @@ def main():
             c = ctxmod.Ctx(np, da, False, inputs=job['inputs'])
             c.monitor = job.get('monitor')
             try:
-                with np.errstate(all='ignore'):
+                with np.errstate(all='ignore'), contextlib.redirect_stdout(io.StringIO()):
                     ok = fn(c, **job['params'])
                 r['status'] = 'holds' if ok else 'violates'
             except ctxmod.Reject:
